@@ -37,6 +37,10 @@ def main():
     missed = []
     for n in names:
         meta = json.load(open(os.path.join(root, n, 'meta.json')))
+        if meta.get('breaks_property_as_stated') is False:
+            # kept for the record only (DESIGN.md 9.6, ninth wave: C20-12); the check is rightly silent on it
+            res[n] = {'property': meta['property'], 'rc': None, 'note': 'does not violate the property as stated; not rechecked'}
+            continue
         # (detecting_property: set where a change written against one property actually violates another one, see DESIGN.md 9.6)
         pid = meta.get('detecting_property', meta['property'])
         d = tempfile.mkdtemp(prefix='recheck.', dir='/tmp')
